@@ -88,6 +88,17 @@ def plan(pid, tier, seed):
                         "random patterns; one 'history' = 64 requests; distinct = distinct request chunks",
                 "trusted_base": ["translator tools/extract_facts.py (Rust expression subset -> BitVec terms)",
                                  "derive(Hash, Eq, Ord) expansion and serde_json/bincode are exercised, not modelled"]}
+    if pid == "C05":
+        n = 600 if q else 60000
+        ns = 1 if q else NSHARD_THOROUGH
+        jobs = [{"engine": "borrow", "name": f"borrow-{i}", "args": ["--seed", seed * 131 + i * 7 + 3, "--count", n // ns, "--len", 16 if i % 2 == 0 else 30]}
+                for i in range(ns)]
+        return {"jobs": jobs, "nontrivial_min_lines": 6,
+                "rule": "one case = one guard script (8-45 actions: create query/view/prepared/single-entity/Ref/RefMut/column guards, "
+                        "iterate, get, with/without, clone, drop in any order) over a seeded world with empty and non-empty archetypes; "
+                        "distinct = distinct script seed; non-trivial = at least 5 actions",
+                "trusted_base": ["hooked raw borrow words (verif_dump)", "guard menu: 12 query types x 8 guard kinds + Ref/RefMut/Column(Mut) on 3 component types"],
+                "assumptions": ["Archetype::get::<&mut T>() borrows the named column even on an empty archetype (interpretive choice, DESIGN §5.C05)"]}
     if pid == "C06":
         jobs = []
         ns = NSHARD_THOROUGH
